@@ -40,6 +40,10 @@ CLAIMED['C04'] = ('Coq proofs over Model/Status.v + History.v: converse of C03 (
          'proof: if since its last successful execution nothing listed in the documented conditions changed, get_status answers up-to-date and the runner model does not execute the task; after run_all of any task list from any history a second run executes exactly the tasks with a false uptodate item or without file_dep and evaluated item; under md5 a touch or same-content rewrite leaves get_status unchanged; FS-fresh necessity witnessed',
          'trusted: as C03 (same models, same correspondence run); serial runner decision modelled by run_task (select_task + result processing, no setup-tasks)',
          'DESIGN.md 5-C04')
+CLAIMED['C01'] = ('Coq invariant proof over Model/Dispatch.v + Runner.v (+ Parallel.v): accounting invariant of the dispatcher (every dependency is pending / being iterated / waited for / finished), queue discipline, statuses frame => whenever a task is started every declared dependency has a final event earlier in the trace; correspondence event-for-event against the real dispatcher and runners under a deterministic scheduler',
+         'proof: for every task table, selection, --continue/--always, set-iteration oracle and fuel (= every prefix of every run) the serial runner model emits EExecute t only after a final report of every task in t.task_dep (explicit, wild-card, file_dep on a target, result_dep, delayed trigger), t.calc_dep and t.setup (incl. getargs) [C01_serial_dep_order]; the parallel statement (every PStart under every schedule) is given in Properties/C01.v as soon as Proofs/ParallelP.v is complete - until then the parallel runners are covered by the correspondence (all schedules of small graphs, random schedules beyond) and by the oracle on the implementation traces; real multiprocessing is sampled',
+         'trusted: Coq kernel; hand models tied by 732 (quick) cases incl. all DAGs <= 3 tasks x all schedules k=2 for thread and process flavour, random graphs to 10 tasks with calc_dep/setup/getargs/failures; Dependency is a fake at the runner seam (status per task is an input); scheduler granularity assumption; process flavour simulated in threads with per-worker runner copies',
+         'DESIGN.md 5-C01')
 NOT_YET = {}
 
 def main():
